@@ -203,6 +203,8 @@ def _tk(c):
 
 def _sets_kw(c, ic, sir):
     if c['mode'] == 'rho':
+        if c.get('rho_default'):
+            return {}                    # documented default: rho = 1/N
         return {'rho': c['rho']}
     kw = {'initial_infecteds': list(ic.I0nodes)}
     if sir and ic.R0nodes:
@@ -461,6 +463,9 @@ def analytic_case(draw, names=None, nmax=12, need_edge=True, modes=('rho', 'sets
         sir = e.model == 'SIR'
         I0, R0 = draw(gen.initial_sets(gc['nodes'], allow_R=sir))
         case['I0'], case['R0'] = I0, R0
+    if mode == 'rho' and e.level == 'wrapper' and '_from_graph' in name and not e.discrete and 'pref_mix' not in name and draw(st.integers(0, 4)) == 0:
+        case['rho_default'] = True       # rho omitted: the documented default 1/N
+        case['rho'] = 1.0 / len(gc['nodes'])
     if ('individual_based' in name or 'pair_based' in name) and '[' not in name and draw(st.booleans()):
         case['nodelist_perm'] = list(draw(st.permutations(list(range(len(gc['nodes']))))))    # explicit nodelist, caller's order
     return case
@@ -469,7 +474,10 @@ def analytic_case(draw, names=None, nmax=12, need_edge=True, modes=('rho', 'sets
 def make_ic(case):
     e = ENTRIES[case['entry']]
     if case['mode'] == 'rho':
-        return IC(case['gc'], rho=case['rho'], sis=e.model == 'SIS')
+        rho = case['rho']
+        if case.get('rho_default') and e.level == 'wrapper' and '_from_graph' in e.name and not e.discrete:
+            rho = 1.0 / len(case['gc']['nodes'])
+        return IC(case['gc'], rho=rho, sis=e.model == 'SIS')
     return IC(case['gc'], I0=case['I0'], R0=case['R0'], sis=e.model == 'SIS')
 
 
